@@ -11,6 +11,23 @@
 #include <string.h>
 #include <sys/types.h>
 #include <unistd.h>
+#include <pthread.h>
+
+/* free-running threads (C18 cross-check under the real TSan runtime): the bookkeeping is locked */
+int vf_threaded;
+static pthread_mutex_t vf_mu = PTHREAD_RECURSIVE_MUTEX_INITIALIZER_NP;
+#define VF_LOCK()                        \
+	do                                   \
+	{                                    \
+		if (vf_threaded)                 \
+			pthread_mutex_lock(&vf_mu);  \
+	} while (0)
+#define VF_UNLOCK()                       \
+	do                                    \
+	{                                     \
+		if (vf_threaded)                  \
+			pthread_mutex_unlock(&vf_mu); \
+	} while (0)
 
 /* ---------- live block table ---------- */
 struct blk
@@ -23,6 +40,7 @@ static struct blk *tab;
 static size_t tab_cap, tab_used, tab_live;
 static long live_bytes, peak_live, serial_no, alloc_calls, fail_k1, fail_k2, locale_live;
 static int fail_fired;
+int vf_quarantine; /* 1: freed blocks are poisoned but never returned to the allocator (C18: no address reuse) */
 void (*vf_free_hook)(void *p, size_t size);
 void (*vf_alloc_hook)(void *p, size_t size);
 
@@ -169,8 +187,12 @@ static int should_fail(size_t n)
 
 void *vf_malloc(size_t n)
 {
+	VF_LOCK();
 	if (should_fail(n))
+	{
+		VF_UNLOCK();
 		return NULL;
+	}
 	void *p = malloc(n ? n : 1);
 	if (!p)
 		abort();
@@ -178,6 +200,7 @@ void *vf_malloc(size_t n)
 	tab_add(p, n);
 	if (vf_alloc_hook)
 		vf_alloc_hook(p, n);
+	VF_UNLOCK();
 	return p;
 }
 void *vf_calloc(size_t a, size_t b)
@@ -189,16 +212,22 @@ void *vf_calloc(size_t a, size_t b)
 		errno = ENOMEM;
 		return NULL;
 	}
+	VF_LOCK();
 	if (should_fail(n))
+	{
+		VF_UNLOCK();
 		return NULL;
+	}
 	void *p = calloc(1, n ? n : 1);
 	if (!p)
 		abort();
 	tab_add(p, n);
 	if (vf_alloc_hook)
 		vf_alloc_hook(p, n);
+	VF_UNLOCK();
 	return p;
 }
+static void *vf_realloc_locked(void *p, size_t n);
 static void vf_free_internal(void *p)
 {
 	struct blk *b = tab_find(p);
@@ -214,18 +243,28 @@ static void vf_free_internal(void *p)
 	tab_live--;
 	live_bytes -= (long)size;
 	memset(p, 0xDD, size);
-	free(p);
+	if (!vf_quarantine)
+		free(p);
 }
 void vf_free(void *p)
 {
 	if (!p)
 		return;
+	VF_LOCK();
 	vf_free_internal(p);
+	VF_UNLOCK();
 }
 void *vf_realloc(void *p, size_t n)
 {
 	if (!p)
 		return vf_malloc(n);
+	VF_LOCK();
+	void *r = vf_realloc_locked(p, n);
+	VF_UNLOCK();
+	return r;
+}
+static void *vf_realloc_locked(void *p, size_t n)
+{
 	struct blk *b = tab_find(p);
 	if (!b)
 	{
@@ -280,26 +319,32 @@ int vf_vasprintf(char **out, const char *fmt, va_list ap)
 /* ---------- locale objects ---------- */
 locale_t vf_duplocale(locale_t l)
 {
-	if (should_fail(0))
+	VF_LOCK();
+	int f = should_fail(0);
+	VF_UNLOCK();
+	if (f)
 		return (locale_t)0;
 	locale_t r = duplocale(l);
 	if (r)
-		locale_live++;
+		__atomic_fetch_add(&locale_live, 1, __ATOMIC_SEQ_CST);
 	return r;
 }
 locale_t vf_newlocale(int mask, const char *name, locale_t base)
 {
-	if (should_fail(0))
+	VF_LOCK();
+	int f = should_fail(0);
+	VF_UNLOCK();
+	if (f)
 		return (locale_t)0;
 	locale_t r = newlocale(mask, name, base);
 	if (r && !base)
-		locale_live++;
+		__atomic_fetch_add(&locale_live, 1, __ATOMIC_SEQ_CST);
 	return r;
 }
 void vf_freelocale(locale_t l)
 {
 	if (l)
-		locale_live--;
+		__atomic_fetch_sub(&locale_live, 1, __ATOMIC_SEQ_CST);
 	freelocale(l);
 }
 
@@ -542,7 +587,7 @@ uint32_t vf_seed_values[8] = {0x1234567};
 int vf_seed_n = 1, vf_seed_calls;
 uint32_t arc4random(void)
 {
-	int i = vf_seed_calls++;
+	int i = __atomic_fetch_add(&vf_seed_calls, 1, __ATOMIC_SEQ_CST);
 	if (i >= vf_seed_n)
 		i = vf_seed_n - 1;
 	return vf_seed_values[i];
